@@ -1443,3 +1443,613 @@ Proof.
 Qed.
 
 End Lifting.
+
+(* ------------------------------------------------------------------ lifting of the smoothed P for A (x) I_b *)
+Section LiftingSA.
+Context {S : Scalar}.
+
+Lemma kron_row_add b k (r : row S) c v : 0 < b ->
+  row_add (kron_row b k r) (c * b + k) v = kron_row b k (row_add r c v).
+Proof.
+  intro Hb. induction r as [|[c' v'] r IH]; [reflexivity|].
+  change (kron_row b k ((c', v') :: r)) with (((c' * b + k)%nat, v') :: kron_row b k r).
+  cbn [row_add].
+  replace (Nat.eqb (c' * b + k) (c * b + k)) with (Nat.eqb c' c)
+    by (destruct (Nat.eqb_spec c' c) as [->|Hne]; symmetry; [apply Nat.eqb_refl | apply Nat.eqb_neq; nia]).
+  destruct (Nat.eqb c' c); [reflexivity|]. rewrite IH. reflexivity.
+Qed.
+
+Lemma kron_fold_row_add b k (va : S) (q acc : row S) : 0 < b ->
+  fold_left (fun acc ep => row_add acc (fst ep) (va * snd ep)) (kron_row b k q) (kron_row b k acc)
+  = kron_row b k (fold_left (fun acc ep => row_add acc (fst ep) (va * snd ep)) q acc).
+Proof.
+  intro Hb. revert acc; induction q as [|[c v] q IH]; intro acc; [reflexivity|].
+  change (kron_row b k ((c, v) :: q)) with (((c * b + k)%nat, v) :: kron_row b k q).
+  cbn [fold_left fst snd]. rewrite kron_row_add by exact Hb. apply IH.
+Qed.
+
+Lemma zip_kron_row b k (r : row S) fl :
+  zip_row (kron_row b k r) fl = map (fun e => (((fst (fst e) * b + k)%nat, snd (fst e)), snd e)) (zip_row r fl).
+Proof.
+  unfold zip_row, kron_row. revert fl; induction r as [|e r IH]; intros [|f fl]; simpl; try reflexivity.
+  rewrite IH. reflexivity.
+Qed.
+
+Lemma eqb_kron b k c i : 0 < b -> Nat.eqb (c * b + k) (i * b + k) = Nat.eqb c i.
+Proof.
+  intro Hb. destruct (Nat.eqb_spec c i) as [->|Hne]; [apply Nat.eqb_refl | apply Nat.eqb_neq; nia].
+Qed.
+
+Lemma sa_dia_kron b k i (zr : list (nat * S * bool)) : 0 < b ->
+  sa_dia (i * b + k) (map (fun e => (((fst (fst e) * b + k)%nat, snd (fst e)), snd e)) zr) = sa_dia i zr.
+Proof.
+  intro Hb. unfold sa_dia. generalize (@s0 S). induction zr as [|e zr IH]; intro a; [reflexivity|].
+  cbn [map fold_left fst snd]. rewrite eqb_kron by exact Hb. apply IH.
+Qed.
+
+(* tentative prolongation of the lifted ids: row c*b+k is the Kronecker image of row c *)
+Lemma tentative_kron_row b k naggr (id : list Z) c : 0 < b -> k < b ->
+  nth (c * b + k) (rows (tentative_prolongation (S:=S) (naggr * b) (expand_ids b id))) []
+  = kron_row b k (nth c (rows (tentative_prolongation (S:=S) naggr id)) []).
+Proof.
+  intros Hb Hk. rewrite !tentative_row_nth.
+  destruct (Nat.ltb c (length id)) eqn:Hc.
+  - apply Nat.ltb_lt in Hc. unfold zget at 1. rewrite expand_ids_nth by assumption. fold (zget id c).
+    unfold tentative_row. destruct (Z.leb 0 (zget id c)) eqn:E.
+    + replace (Z.leb 0 (Z.of_nat b * zget id c + Z.of_nat k)) with true by nia.
+      unfold kron_row. simpl. f_equal. f_equal. nia.
+    + replace (Z.leb 0 (Z.of_nat b * zget id c + Z.of_nat k)) with false by nia. reflexivity.
+  - apply Nat.ltb_ge in Hc.
+    unfold zget. rewrite (nth_overflow id) by lia.
+    rewrite nth_overflow by (rewrite expand_ids_length; nia). reflexivity.
+Qed.
+
+Lemma sa_row_kron_fold b k (omega dia : S) naggr (id : list Z) i (zr : list (nat * S * bool)) : 0 < b -> k < b ->
+  forall acc : row S,
+  fold_left (fun acc e =>
+     let ca := fst (fst e) in
+     if negb (Nat.eqb ca (i * b + k)) && negb (snd e) then acc else
+     let va := if Nat.eqb ca (i * b + k) then (s1 - omega) * s1 else dia * snd (fst e) in
+     fold_left (fun acc ep => row_add acc (fst ep) (va * snd ep))
+               (nth ca (rows (tentative_prolongation (naggr * b) (expand_ids b id))) []) acc)
+   (map (fun e => (((fst (fst e) * b + k)%nat, snd (fst e)), snd e)) zr) (kron_row b k acc)
+  = kron_row b k (fold_left (fun acc e =>
+     let ca := fst (fst e) in
+     if negb (Nat.eqb ca i) && negb (snd e) then acc else
+     let va := if Nat.eqb ca i then (s1 - omega) * s1 else dia * snd (fst e) in
+     fold_left (fun acc ep => row_add acc (fst ep) (va * snd ep))
+               (nth ca (rows (tentative_prolongation naggr id)) []) acc) zr acc).
+Proof.
+  intros Hb Hk. induction zr as [|e zr IH]; intro acc; [reflexivity|].
+  cbn [map fold_left fst snd]. rewrite eqb_kron by exact Hb.
+  destruct (negb (Nat.eqb (fst (fst e)) i) && negb (snd e)); [apply IH|].
+  rewrite tentative_kron_row by assumption. rewrite kron_fold_row_add by exact Hb. apply IH.
+Qed.
+
+Lemma sa_row_kron b k omega naggr (id : list Z) i (r : row S) fl : 0 < b -> k < b ->
+  sa_row omega (tentative_prolongation (naggr * b) (expand_ids b id)) (i * b + k) (zip_row (kron_row b k r) fl)
+  = kron_row b k (sa_row omega (tentative_prolongation naggr id) i (zip_row r fl)).
+Proof.
+  intros Hb Hk. rewrite zip_kron_row. unfold sa_row. rewrite sa_dia_kron by exact Hb.
+  apply (sa_row_kron_fold b k omega _ naggr id i (zip_row r fl) Hb Hk []).
+Qed.
+
+Lemma seq_shift_add m b : seq m b = map (fun k => (m + k)%nat) (seq 0 b).
+Proof.
+  revert m; induction b as [|b IH]; intro m; [reflexivity|].
+  cbn [seq map]. f_equal; [lia|]. rewrite <- (seq_shift b 0), map_map, (IH (Datatypes.S m)).
+  apply map_ext. intro. lia.
+Qed.
+Lemma seq_shift_mul s0 b : seq (s0 * b) b = map (fun k => (s0 * b + k)%nat) (seq 0 b).
+Proof. apply seq_shift_add. Qed.
+
+Lemma combine_map_l {X Y Z} (g : X -> Z) (a : list X) (l : list Y) :
+  combine (map g a) l = map (fun p => (g (fst p), snd p)) (combine a l).
+Proof. revert l; induction a as [|x a IH]; intros [|y l]; simpl; try reflexivity. rewrite IH. reflexivity. Qed.
+
+Lemma combine_app' {X Y} (a1 a2 : list X) (l1 l2 : list Y) : length a1 = length l1 ->
+  combine (a1 ++ a2) (l1 ++ l2) = combine a1 l1 ++ combine a2 l2.
+Proof.
+  revert l1; induction a1 as [|x a1 IH]; intros [|y l1] H; simpl in *; try discriminate; [reflexivity|].
+  rewrite IH by lia. reflexivity.
+Qed.
+
+Lemma indexed_kron_gen b (l : list (row S)) : forall s0,
+  combine (seq (s0 * b) (length (flat_map (kr b) l))) (flat_map (kr b) l)
+  = flat_map (fun ir => map (fun k => ((fst ir * b + k)%nat, kron_row b k (snd ir))) (seq 0 b))
+             (combine (seq s0 (length l)) l).
+Proof.
+  induction l as [|r l IH]; intro s0; [reflexivity|].
+  cbn [flat_map length seq combine fst snd]. rewrite app_length, kr_length, seq_app.
+  rewrite combine_app' by (rewrite seq_length, kr_length; reflexivity).
+  f_equal.
+  - rewrite seq_shift_mul. unfold kr. rewrite combine_map_l, combine_map_r, map_map.
+    rewrite (combine_map_self (fun x => x) (seq 0 b)) at 1 || idtac.
+    assert (Hc : combine (seq 0 b) (seq 0 b) = map (fun k => (k, k)) (seq 0 b)).
+    { generalize (seq 0 b). intro q. induction q; simpl; [reflexivity|]. rewrite IHq. reflexivity. }
+    rewrite Hc, map_map. reflexivity.
+  - replace (s0 * b + b)%nat with (Datatypes.S s0 * b)%nat by lia. apply IH.
+Qed.
+
+Lemma indexed_kron b (l : list (row S)) :
+  indexed (flat_map (kr b) l)
+  = flat_map (fun ir => map (fun k => ((fst ir * b + k)%nat, kron_row b k (snd ir))) (seq 0 b)) (indexed l).
+Proof. unfold indexed. apply (indexed_kron_gen b l 0). Qed.
+
+Lemma nth_map_const {X Y} (x : Y) (l : list X) d k : k < length l -> nth k (map (fun _ => x) l) d = x.
+Proof. revert k; induction l as [|a l IH]; intros [|k] H; simpl in *; try lia; auto. apply IH; lia. Qed.
+
+Lemma nth_lifted_flags b (st : flags) i k : 0 < b -> k < b ->
+  nth (i * b + k) (lifted_flags b st) [] = nth i st [].
+Proof.
+  intros Hb Hk. unfold lifted_flags. revert i; induction st as [|fl st IH]; intro i.
+  - cbn [flat_map]. rewrite !nth_overflow by (simpl; lia). reflexivity.
+  - cbn [flat_map]. destruct i as [|i].
+    + cbn [Nat.mul Nat.add nth]. rewrite app_nth1 by (rewrite map_length, seq_length; exact Hk).
+      apply nth_map_const. rewrite seq_length. exact Hk.
+    + rewrite app_nth2 by (rewrite map_length, seq_length; simpl; lia).
+      rewrite map_length, seq_length.
+      replace (Datatypes.S i * b + k - b)%nat with (i * b + k)%nat by (simpl; lia).
+      cbn [nth]. apply IH.
+Qed.
+
+(* smoothing the lifted tentative operator of A (x) I_b with the lifted flags = P (x) I_b *)
+Lemma sa_smooth_kron b omega (A : crs S) st naggr (id : list Z) : 0 < b ->
+  sa_smooth omega (kron_id b A) (lifted_flags b st) (tentative_prolongation (naggr * b) (expand_ids b id))
+  = kron_id b (sa_smooth omega A st (tentative_prolongation naggr id)).
+Proof.
+  intro Hb. unfold sa_smooth, kron_id. cbn [ncols rows]. f_equal.
+  change (flat_map (fun r => map (fun k => kron_row b k r) (seq 0 b)) (rows A)) with (flat_map (kr b) (rows A)).
+  rewrite indexed_kron. rewrite flat_map_concat_map, concat_map, map_map.
+  rewrite (flat_map_concat_map _ (map _ (indexed (rows A)))), map_map. f_equal.
+  apply map_ext_in. intros [i r] _. cbn [fst snd]. rewrite map_map. apply map_ext_in. intros k Hk.
+  apply in_seq in Hk. cbn [fst snd]. rewrite nth_lifted_flags by lia. apply sa_row_kron; lia.
+Qed.
+
+(* Theorem: smoothed_aggregation on A (x) I_b with block_size b returns P (x) I_b and its transpose *)
+Lemma sa_transfer_kron eps2 omega b (A : crs S) junk : 1 < b -> forallb sorted_strict (rows A) = true ->
+  sa_transfer_omega eps2 omega b (kron_id b A) junk = lifted_sa eps2 omega b A junk.
+Proof.
+  intros Hb Hs. unfold sa_transfer_omega, lifted_sa. rewrite pointwise_lifting by assumption.
+  destruct (plain_aggregates eps2 (mabs A) junk) as [| |c id st]; try reflexivity.
+  cbn [lifted_aggregates]. unfold lifted_ids. rewrite sa_smooth_kron by lia. reflexivity.
+Qed.
+
+End LiftingSA.
+
+(* ------------------------------------------------------------------ Ruge-Stuben direct interpolation: row sums *)
+Section RSRowSum.
+Variable S : Scalar.
+Hypothesis Sft : Sfield S.
+Let Srt : Sring S := F_R Sft.
+Add Field SFieldRS : Sft.
+
+Notation entry := (nat * S * bool)%type.
+Definition ent_val (e : entry) : S := snd (fst e).
+Definition ent_col (e : entry) : nat := fst (fst e).
+Definition fsum (p : entry -> bool) (r : list entry) : S :=
+  fold_right (fun e acc => (if p e then ent_val e else s0) + acc) s0 r.
+
+
+Lemma fsum_cons p (e : entry) r : fsum p (e :: r) = (if p e then ent_val e else s0) + fsum p r.
+Proof. reflexivity. Qed.
+
+(* ---- ordered field: hypotheses (the set of MatOps2Proofs.Gersh, with the defining equation of abs) *)
+Hypothesis lt_irrefl : forall x : S, sltb x x = false.
+Hypothesis lt_trans  : forall x y z : S, sltb x y = true -> sltb y z = true -> sltb x z = true.
+Hypothesis lt_total  : forall x y : S, sltb x y = false -> sltb y x = false -> x = y.
+Hypothesis lt_add : forall x y z : S, sltb x y = true -> sltb (x + z) (y + z) = true.
+Hypothesis lt_mul : forall x y z : S, sltb s0 z = true -> sltb x y = true -> sltb (x * z) (y * z) = true.
+Hypothesis abs_def : forall x : S, sabs x = if sltb x s0 then - x else x.
+
+Definition lep (x y : T S) : Prop := @sltb S y x = false.
+
+Lemma lt_asym (x y : S) : sltb x y = true -> sltb y x = false.
+Proof.
+  intro H. destruct (sltb y x) eqn:E; [|reflexivity].
+  pose proof (lt_trans x y x H E) as C. rewrite lt_irrefl in C. discriminate.
+Qed.
+Lemma le_refl (x : S) : lep x x. Proof. apply lt_irrefl. Qed.
+Lemma lt_le (x y : S) : sltb x y = true -> lep x y. Proof. apply lt_asym. Qed.
+Lemma le_trans (x y z : S) : lep x y -> lep y z -> lep x z.
+Proof.
+  unfold lep. intros Hxy Hyz. destruct (sltb z x) eqn:Hzx; [|reflexivity].
+  destruct (sltb x y) eqn:E.
+  - rewrite (lt_trans z x y Hzx E) in Hyz. discriminate.
+  - assert (x = y) by (apply lt_total; assumption). subst. congruence.
+Qed.
+Lemma lt_le_trans (x y z : S) : sltb x y = true -> lep y z -> sltb x z = true.
+Proof.
+  intros H1 H2. destruct (sltb x z) eqn:E; [reflexivity|]. exfalso.
+  assert (Hzx : lep z x) by exact E.
+  pose proof (le_trans y z x H2 Hzx) as C. unfold lep in C. congruence.
+Qed.
+Lemma le_lt_trans (x y z : S) : lep x y -> sltb y z = true -> sltb x z = true.
+Proof.
+  intros H1 H2. destruct (sltb x z) eqn:E; [reflexivity|]. exfalso.
+  assert (Hzx : lep z x) by exact E.
+  pose proof (le_trans z x y Hzx H1) as C. unfold lep in C. congruence.
+Qed.
+Lemma le_add (x y z : S) : lep x y -> lep (x + z) (y + z).
+Proof.
+  unfold lep. intro H. destruct (sltb (y + z) (x + z)) eqn:E; [|reflexivity].
+  pose proof (lt_add _ _ (- z) E) as C.
+  replace (y + z + - z) with y in C by ring. replace (x + z + - z) with x in C by ring. congruence.
+Qed.
+Lemma add_nonpos (a b : S) : lep a s0 -> lep b s0 -> lep (a + b) s0.
+Proof.
+  intros Ha Hb. apply (le_trans _ (s0 + b)); [apply le_add; exact Ha|].
+  replace (s0 + b) with b by ring. exact Hb.
+Qed.
+Lemma add_nonneg (a b : S) : lep s0 a -> lep s0 b -> lep s0 (a + b).
+Proof.
+  intros Ha Hb. apply (le_trans _ (s0 + b)); [replace (s0 + b) with b by ring; exact Hb|].
+  apply le_add. exact Ha.
+Qed.
+Lemma neg_nonneg (x : S) : lep x s0 -> lep s0 (- x).
+Proof.
+  unfold lep. intro H. destruct (sltb (- x) s0) eqn:E; [|reflexivity].
+  pose proof (lt_add _ _ x E) as C. replace (- x + x) with (@s0 S) in C by ring.
+  replace (s0 + x) with x in C by ring. congruence.
+Qed.
+Lemma neg_nonpos (x : S) : lep s0 x -> lep (- x) s0.
+Proof.
+  unfold lep. intro H. destruct (sltb s0 (- x)) eqn:E; [|reflexivity].
+  pose proof (lt_add _ _ x E) as C. replace (- x + x) with (@s0 S) in C by ring.
+  replace (s0 + x) with x in C by ring. congruence.
+Qed.
+Lemma abs_of_nonpos (x : S) : lep x s0 -> sabs x = - x.
+Proof.
+  intro H. rewrite abs_def. destruct (sltb x s0) eqn:E; [reflexivity|].
+  assert (x = s0) by (apply lt_total; assumption). subst. ring.
+Qed.
+Lemma abs_of_nonneg (x : S) : lep s0 x -> sabs x = x.
+Proof. intro H. rewrite abs_def. unfold lep in H. rewrite H. reflexivity. Qed.
+Lemma mul_nonpos_nonneg (x z : S) : lep x s0 -> lep s0 z -> lep (x * z) s0.
+Proof.
+  intros Hx Hz. destruct (sltb s0 z) eqn:Ez.
+  - destruct (sltb x s0) eqn:Ex.
+    + pose proof (lt_mul x s0 z Ez Ex) as C. replace (s0 * z) with (@s0 S) in C by ring. apply lt_le. exact C.
+    + assert (x = s0) by (apply lt_total; assumption). subst. replace (s0 * z) with (@s0 S) by ring. apply le_refl.
+  - assert (z = s0) by (symmetry; apply lt_total; assumption). subst. replace (x * s0) with (@s0 S) by ring. apply le_refl.
+Qed.
+Lemma mul_nonneg_nonneg (x z : S) : lep s0 x -> lep s0 z -> lep s0 (x * z).
+Proof.
+  intros Hx Hz. pose proof (mul_nonpos_nonneg (- x) z (neg_nonpos x Hx) Hz) as C.
+  apply neg_nonneg in C. replace (- (- x * z)) with (x * z) in C by ring. exact C.
+Qed.
+Lemma sle_le (x y : S) : sle x y = true <-> lep x y.
+Proof. unfold sle, lep. destruct (sltb y x); simpl; split; congruence. Qed.
+
+Lemma fsum_nonpos p (r : list entry) : (forall e, In e r -> p e = true -> lep (ent_val e) s0) -> lep (fsum p r) s0.
+Proof.
+  induction r as [|e r IH]; intro H; [apply le_refl|]. rewrite fsum_cons. apply add_nonpos.
+  - destruct (p e) eqn:E; [apply H; [left; reflexivity | exact E] | apply le_refl].
+  - apply IH. intros e' He'. apply H. right. exact He'.
+Qed.
+Lemma fsum_nonneg p (r : list entry) : (forall e, In e r -> p e = true -> lep s0 (ent_val e)) -> lep s0 (fsum p r).
+Proof.
+  induction r as [|e r IH]; intro H; [apply le_refl|]. rewrite fsum_cons. apply add_nonneg.
+  - destruct (p e) eqn:E; [apply H; [left; reflexivity | exact E] | apply le_refl].
+  - apply IH. intros e' He'. apply H. right. exact He'.
+Qed.
+Lemma fsum_zero p (r : list entry) : (forall e, In e r -> p e = false) -> fsum p r = s0.
+Proof.
+  induction r as [|e r IH]; intro H; [reflexivity|]. rewrite fsum_cons, (H e (or_introl eq_refl)), IH; [ring|].
+  intros e' He'. apply H. right. exact He'.
+Qed.
+Lemma fsum_combine (f g h : entry -> bool) (r : list entry) :
+  (forall e, In e r -> (if f e then ent_val e else s0) = (if g e then ent_val e else s0) - (if h e then ent_val e else s0)) ->
+  fsum f r = fsum g r - fsum h r.
+Proof.
+  induction r as [|e r IH]; intro H; [cbn; ring|]. rewrite !fsum_cons, (H e (or_introl eq_refl)), IH; [ring|].
+  intros e' He'. apply H. right. exact He'.
+Qed.
+Lemma fsum_split3 (f g h : entry -> bool) (r : list entry) :
+  (forall e, In e r -> ent_val e = (if f e then ent_val e else s0) + (if g e then ent_val e else s0) + (if h e then ent_val e else s0)) ->
+  fsum (fun _ => true) r = fsum f r + fsum g r + fsum h r.
+Proof.
+  induction r as [|e r IH]; intro H; [cbn; ring|]. rewrite !fsum_cons, IH by (intros e' He'; apply H; right; exact He').
+  rewrite (H e (or_introl eq_refl)) at 1. ring.
+Qed.
+
+(* ---- the scalar algebra behind alpha, beta *)
+Lemma lt_neq (x y : S) : sltb x y = true -> x <> y.
+Proof. intros H E. subst. rewrite lt_irrefl in H. discriminate. Qed.
+Lemma abs_gt_nonzero (eps x : S) : lep s0 eps -> sltb eps (sabs x) = true -> x <> s0.
+Proof.
+  intros He H E. subst. rewrite (abs_of_nonneg s0 (le_refl s0)) in H. unfold lep in He. congruence.
+Qed.
+
+Lemma neg_nz (x : S) : x <> s0 -> - x <> s0.
+Proof. intros H E. apply H. transitivity (- - x); [ring | rewrite E; ring]. Qed.
+
+Lemma rs_algebra (dia AN AD BN BD DN DP eps : S) (dt : bool) :
+  sltb AN s0 = true -> lep AD s0 -> lep (AD - DN) s0 -> lep s0 BN -> lep s0 BD -> lep s0 (BD - DP) ->
+  dia + AN + BN = s0 -> lep s0 eps ->
+  sltb eps (sabs AD) = true ->
+  (dt = true -> sltb eps (sabs (AD - DN)) = true) ->
+  (dt = false -> DN = s0 /\ DP = s0) ->
+  (sltb (sabs BD) eps = true \/
+   (sltb eps (sabs BD) = true /\ (dt = true -> sltb eps (sabs (BD - DP)) = true) /\ sltb s0 dia = true)) ->
+  fst (rs_coefs eps dt (dia, (AN, AD), (BN, BD), (DN, DP))) * (AD - DN)
+  + snd (rs_coefs eps dt (dia, (AN, AD), (BN, BD), (DN, DP))) * (BD - DP) = s1.
+Proof.
+  intros hAN hAD hKN hBN hBD hKP hz heps h1 h2 h2' h3.
+  assert (nAD : AD <> s0) by (apply (abs_gt_nonzero eps); assumption).
+  assert (nAN : AN <> s0) by (apply lt_neq; exact hAN).
+  assert (aAN : sabs AN = - AN) by (apply abs_of_nonpos; apply lt_le; exact hAN).
+  assert (aAD : sabs AD = - AD) by (apply abs_of_nonpos; exact hAD).
+  assert (aKN : sabs (AD - DN) = - (AD - DN)) by (apply abs_of_nonpos; exact hKN).
+  assert (aBN : sabs BN = BN) by (apply abs_of_nonneg; exact hBN).
+  assert (aBD : sabs BD = BD) by (apply abs_of_nonneg; exact hBD).
+  assert (aKP : sabs (BD - DP) = BD - DP) by (apply abs_of_nonneg; exact hKP).
+  assert (nKN : AD - DN <> s0).
+  { destruct dt; [apply (abs_gt_nonzero eps); auto | destruct (h2' eq_refl) as [-> _]; replace (AD - s0) with AD by ring; exact nAD]. }
+  unfold rs_coefs. cbn [fst snd]. rewrite h1.
+  destruct h3 as [p1 | (p2 & p2' & hdia)].
+  - (* no positive strong C part *)
+    rewrite (lt_asym _ _ p1). rewrite p1, andb_true_r.
+    assert (Hd : (if sltb s0 BN then dia + BN else dia) = - AN).
+    { destruct (sltb s0 BN) eqn:Eb.
+      - transitivity (dia + AN + BN - AN); [ring | rewrite hz; ring].
+      - assert (BN = s0) by (symmetry; apply lt_total; assumption). subst BN.
+        transitivity (dia + AN + s0 - AN); [ring | rewrite hz; ring]. }
+    rewrite Hd. rewrite (abs_of_nonneg (- AN)) by (apply neg_nonneg; apply lt_le; exact hAN).
+    rewrite aAN, aAD.
+    destruct dt; cbn [andb].
+    + rewrite (h2 eq_refl), aKN. field. repeat split; try apply neg_nz; assumption.
+    + destruct (h2' eq_refl) as [-> ->]. field. repeat split; try apply neg_nz; assumption.
+  - (* positive strong C part present *)
+    rewrite p2. rewrite (lt_asym _ _ p2), andb_false_r.
+    assert (nBD : BD <> s0) by (apply (abs_gt_nonzero eps); assumption).
+    assert (ndia : dia <> s0) by (apply not_eq_sym; apply lt_neq; exact hdia).
+    assert (adia : sabs dia = dia) by (apply abs_of_nonneg; apply lt_le; exact hdia).
+    assert (nKP : BD - DP <> s0).
+    { destruct dt; [apply (abs_gt_nonzero eps); auto | destruct (h2' eq_refl) as [_ ->]; replace (BD - s0) with BD by ring; exact nBD]. }
+    assert (Hdia : dia = - AN - BN) by (transitivity (dia + AN + BN - AN - BN); [ring | rewrite hz; ring]).
+    rewrite adia, aAN, aAD, aBN, aBD.
+    destruct dt; cbn [andb].
+    + rewrite (h2 eq_refl), (p2' eq_refl), aKN, aKP.
+      transitivity ((- AN - BN) / dia); [field; repeat split; try apply neg_nz; assumption | rewrite <- Hdia; field; exact ndia].
+    + destruct (h2' eq_refl) as [-> ->].
+      transitivity ((- AN - BN) / dia); [field; repeat split; try apply neg_nz; assumption | rewrite <- Hdia; field; exact ndia].
+Qed.
+
+
+Section Row.
+Variables (do_trunc : bool) (cf : list cfm) (i : nat) (Amin Amax : S).
+Definition pDI (e : entry) : bool := Nat.eqb (ent_col e) i.
+Definition pAN (e : entry) : bool := negb (pDI e) && sltb (ent_val e) s0.
+Definition pAD (e : entry) : bool := pAN e && rs_strongC cf e.
+Definition pBN (e : entry) : bool := negb (pDI e) && negb (sltb (ent_val e) s0).
+Definition pBD (e : entry) : bool := pBN e && rs_strongC cf e.
+Definition pDN (e : entry) : bool := pAD e && do_trunc && sle Amin (ent_val e).
+Definition pDP (e : entry) : bool := pBD e && do_trunc && sle (ent_val e) Amax.
+Definition lastd (r : list entry) (d0 : S) : S := fold_left (fun d e => if pDI e then ent_val e else d) r d0.
+
+Lemma t7 (a b c d e f g a' b' c' d' e' f' g' : S) :
+  a = a' -> b = b' -> c = c' -> d = d' -> e = e' -> f = f' -> g = g' ->
+  (a, (b, c), (d, e), (f, g)) = (a', (b', c'), (d', e'), (f', g')).
+Proof. intros; subst; reflexivity. Qed.
+
+Lemma lastd_cons (e : entry) r d0 : lastd (e :: r) d0 = lastd r (if pDI e then ent_val e else d0).
+Proof. reflexivity. Qed.
+
+Lemma rs_sums_gen (r : list entry) : forall d0 an ad bn bd dn dp,
+  fold_left (rs_sums_step do_trunc cf i Amin Amax) r (d0, (an, ad), (bn, bd), (dn, dp))
+  = (lastd r d0, (an + fsum pAN r, ad + fsum pAD r), (bn + fsum pBN r, bd + fsum pBD r),
+     (dn + fsum pDN r, dp + fsum pDP r)).
+Proof.
+  induction r as [|e r IH]; intros d0 an ad bn bd dn dp.
+  - cbn. apply t7; ring.
+  - cbn [fold_left]. rewrite !fsum_cons, lastd_cons.
+    set (TAN := fsum pAN r) in *. set (TAD := fsum pAD r) in *. set (TBN := fsum pBN r) in *.
+    set (TBD := fsum pBD r) in *. set (TDN := fsum pDN r) in *. set (TDP := fsum pDP r) in *.
+    unfold rs_sums_step at 2.
+    unfold pDN, pDP, pAD, pBD, pAN, pBN, pDI, ent_col, ent_val.
+    destruct (Nat.eqb (fst (fst e)) i) eqn:E1; cbn [negb andb].
+    + rewrite IH. apply t7; first [reflexivity | ring].
+    + destruct (sltb (snd (fst e)) s0) eqn:E2; cbn [negb andb];
+      destruct (rs_strongC cf e) eqn:E3; cbn [andb];
+      destruct do_trunc eqn:E4; cbn [andb];
+      try (destruct (sle Amin (snd (fst e))) eqn:E5); try (destruct (sle (snd (fst e)) Amax) eqn:E6);
+      rewrite IH; apply t7; first [reflexivity | ring].
+Qed.
+
+Lemma rs_sums_eq (r : list entry) :
+  rs_sums do_trunc cf i Amin Amax r
+  = (lastd r s0, (fsum pAN r, fsum pAD r), (fsum pBN r, fsum pBD r), (fsum pDN r, fsum pDP r)).
+Proof. unfold rs_sums. rewrite rs_sums_gen. apply t7; ring. Qed.
+
+
+(* ---- the emitted row *)
+Definition pK (e : entry) : bool := rs_strongC cf e && negb (do_trunc && sle Amin (ent_val e) && sle (ent_val e) Amax).
+Definition pKN (e : entry) : bool := pK e && sltb (ent_val e) s0.
+Definition pKP (e : entry) : bool := pK e && negb (sltb (ent_val e) s0).
+
+Lemma row_sum_app (l1 l2 : row S) : row_sum (l1 ++ l2) = row_sum l1 + row_sum l2.
+Proof.
+  induction l1 as [|e l1 IH]; simpl.
+  - rewrite (row_sum_nil S). ring.
+  - rewrite !(row_sum_cons S Sft), IH. ring.
+Qed.
+
+Lemma rs_emit_row_sum cidx (alpha beta : S) (r : list entry) :
+  row_sum (rs_emit do_trunc cf cidx Amin Amax alpha beta r) = alpha * fsum pKN r + beta * fsum pKP r.
+Proof.
+  unfold rs_emit. induction r as [|e r IH]; [cbn; ring|].
+  cbn [flat_map]. rewrite row_sum_app, IH, !fsum_cons. unfold pKN, pKP, pK, ent_val.
+  destruct (rs_strongC cf e); cbn [negb andb].
+  - destruct (do_trunc && sle Amin (snd (fst e)) && sle (snd (fst e)) Amax); cbn [negb andb].
+    + rewrite (row_sum_nil S). ring.
+    + rewrite (row_sum_cons S Sft), (row_sum_nil S). cbn [snd]. destruct (sltb (snd (fst e)) s0); cbn [negb]; ring.
+  - rewrite (row_sum_nil S). ring.
+Qed.
+
+(* ---- order facts about the row *)
+Hypothesis cf_i : cfm_eqb (cfget cf i) CC = false.
+Hypothesis Amin_le : lep Amin s0.
+Hypothesis Amax_ge : lep s0 Amax.
+
+Lemma strongC_offdiag (e : entry) : rs_strongC cf e = true -> pDI e = false.
+Proof.
+  unfold rs_strongC, pDI, ent_col. intro H. apply andb_prop in H as [_ H].
+  destruct (Nat.eqb_spec (fst (fst e)) i) as [E|E]; [|reflexivity]. rewrite E in H. congruence.
+Qed.
+Lemma neg_below_Amax (e : entry) : sltb (ent_val e) s0 = true -> sle (ent_val e) Amax = true.
+Proof. intro H. apply sle_le. apply lt_le. apply (lt_le_trans _ s0); assumption. Qed.
+Lemma nonneg_above_Amin (e : entry) : sltb (ent_val e) s0 = false -> sle Amin (ent_val e) = true.
+Proof. intro H. apply sle_le. apply (le_trans _ s0); [exact Amin_le | exact H]. Qed.
+
+Lemma kept_neg (r : list entry) : fsum pKN r = fsum pAD r - fsum pDN r.
+Proof.
+  apply fsum_combine. intros e _. unfold pKN, pK, pDN, pAD, pAN.
+  destruct (rs_strongC cf e) eqn:E3.
+  - rewrite (strongC_offdiag e E3). cbn [negb andb].
+    destruct (sltb (ent_val e) s0) eqn:E2; cbn [negb andb].
+    + rewrite (neg_below_Amax e E2). destruct do_trunc; cbn [negb andb]; [|ring].
+      destruct (sle Amin (ent_val e)); cbn [negb andb]; ring.
+    + rewrite !andb_false_r. ring.
+  - rewrite !andb_false_r. cbn [andb]. ring.
+Qed.
+Lemma kept_pos (r : list entry) : fsum pKP r = fsum pBD r - fsum pDP r.
+Proof.
+  apply fsum_combine. intros e _. unfold pKP, pK, pDP, pBD, pBN.
+  destruct (rs_strongC cf e) eqn:E3.
+  - rewrite (strongC_offdiag e E3). cbn [negb andb].
+    destruct (sltb (ent_val e) s0) eqn:E2; cbn [negb andb].
+    + rewrite !andb_false_r. ring.
+    + rewrite (nonneg_above_Amin e E2). destruct do_trunc; cbn [negb andb]; [|ring].
+      destruct (sle (ent_val e) Amax); cbn [negb andb]; ring.
+  - rewrite !andb_false_r. cbn [andb]. ring.
+Qed.
+
+Lemma total_split (r : list entry) : fsum (fun _ => true) r = fsum pDI r + fsum pAN r + fsum pBN r.
+Proof.
+  apply fsum_split3. intros e _. unfold pAN, pBN. destruct (pDI e); cbn [negb andb]; [ring|].
+  destruct (sltb (ent_val e) s0); cbn [negb]; ring.
+Qed.
+
+Lemma AN_nonpos r : lep (fsum pAN r) s0.
+Proof. apply fsum_nonpos. intros e _ H. unfold pAN in H. apply andb_prop in H as [_ H]. apply lt_le. exact H. Qed.
+Lemma AD_nonpos r : lep (fsum pAD r) s0.
+Proof. apply fsum_nonpos. intros e _ H. unfold pAD, pAN in H. apply andb_prop in H as [H _]. apply andb_prop in H as [_ H]. apply lt_le. exact H. Qed.
+Lemma KN_nonpos r : lep (fsum pKN r) s0.
+Proof. apply fsum_nonpos. intros e _ H. unfold pKN in H. apply andb_prop in H as [_ H]. apply lt_le. exact H. Qed.
+Lemma BN_nonneg r : lep s0 (fsum pBN r).
+Proof. apply fsum_nonneg. intros e _ H. unfold pBN in H. apply andb_prop in H as [_ H]. apply negb_true_iff in H. exact H. Qed.
+Lemma BD_nonneg r : lep s0 (fsum pBD r).
+Proof. apply fsum_nonneg. intros e _ H. unfold pBD, pBN in H. apply andb_prop in H as [H _]. apply andb_prop in H as [_ H]. apply negb_true_iff in H. exact H. Qed.
+Lemma KP_nonneg r : lep s0 (fsum pKP r).
+Proof. apply fsum_nonneg. intros e _ H. unfold pKP in H. apply andb_prop in H as [_ H]. apply negb_true_iff in H. exact H. Qed.
+(* a_num <= a_den : the difference collects the remaining negative entries *)
+Lemma AN_le_AD r : lep (fsum pAN r) (fsum pAD r).
+Proof.
+  assert (H : fsum (fun e => pAN e && negb (rs_strongC cf e)) r = fsum pAN r - fsum pAD r).
+  { apply fsum_combine. intros e _. unfold pAD. destruct (pAN e), (rs_strongC cf e); cbn [negb andb]; ring. }
+  assert (Hn : lep (fsum (fun e => pAN e && negb (rs_strongC cf e)) r) s0).
+  { apply fsum_nonpos. intros e _ He. apply andb_prop in He as [He _]. unfold pAN in He.
+    apply andb_prop in He as [_ He]. apply lt_le. exact He. }
+  rewrite H in Hn. pose proof (le_add _ _ (fsum pAD r) Hn) as C.
+  replace (fsum pAN r - fsum pAD r + fsum pAD r) with (fsum pAN r) in C by ring.
+  replace (s0 + fsum pAD r) with (fsum pAD r) in C by ring. exact C.
+Qed.
+
+(* ---- the row of P sums to one (Amin, Amax abstract) *)
+Lemma row_sum_one_core (eps : S) cidx (r : list entry) :
+  lep s0 eps ->
+  fsum (fun _ => true) r = s0 ->
+  fsum pDI r = lastd r s0 ->
+  sltb eps (sabs (fsum pAD r)) = true ->
+  (do_trunc = true -> sltb eps (sabs (fsum pAD r - fsum pDN r)) = true) ->
+  (sltb (sabs (fsum pBD r)) eps = true \/
+   (sltb eps (sabs (fsum pBD r)) = true /\
+    (do_trunc = true -> sltb eps (sabs (fsum pBD r - fsum pDP r)) = true) /\
+    sltb s0 (lastd r s0) = true)) ->
+  row_sum (rs_emit do_trunc cf cidx Amin Amax
+             (fst (rs_coefs eps do_trunc (rs_sums do_trunc cf i Amin Amax r)))
+             (snd (rs_coefs eps do_trunc (rs_sums do_trunc cf i Amin Amax r))) r) = s1.
+Proof.
+  intros heps hzero hdiag h1 h2 h3.
+  rewrite rs_emit_row_sum, kept_neg, kept_pos, rs_sums_eq.
+  assert (nAD : fsum pAD r <> s0) by (apply (abs_gt_nonzero eps); assumption).
+  assert (lAD : sltb (fsum pAD r) s0 = true).
+  { destruct (sltb (fsum pAD r) s0) eqn:E; [reflexivity|]. exfalso. apply nAD. apply lt_total; [exact E | apply AD_nonpos]. }
+  apply rs_algebra; auto.
+  - apply (le_lt_trans _ (fsum pAD r)); [apply AN_le_AD | exact lAD].
+  - apply AD_nonpos.
+  - rewrite <- kept_neg. apply KN_nonpos.
+  - apply BN_nonneg.
+  - apply BD_nonneg.
+  - rewrite <- kept_pos. apply KP_nonneg.
+  - rewrite <- hdiag, <- total_split. exact hzero.
+  - intro Hd. split; apply fsum_zero; intros e _; unfold pDN, pDP; rewrite Hd; rewrite andb_false_r; reflexivity.
+Qed.
+
+End Row.
+
+(* ---- bounds of (amin, amax) *)
+Lemma minmax_bounds cf (r : list entry) : forall m : S * S, lep (fst m) s0 -> lep s0 (snd m) ->
+  lep (fst (fold_left (fun (m : S * S) e => if rs_strongC cf e then (smin (fst m) (snd (fst e)), smax (snd m) (snd (fst e))) else m) r m)) s0 /\
+  lep s0 (snd (fold_left (fun (m : S * S) e => if rs_strongC cf e then (smin (fst m) (snd (fst e)), smax (snd m) (snd (fst e))) else m) r m)).
+Proof.
+  induction r as [|e r IH]; intros m H1 H2; [split; assumption|].
+  cbn [fold_left]. apply IH; destruct (rs_strongC cf e); auto; cbn [fst snd].
+  - unfold smin. destruct (sltb (snd (fst e)) (fst m)) eqn:E; [|exact H1].
+    apply (le_trans _ (fst m)); [apply lt_le; exact E | exact H1].
+  - unfold smax. destruct (sltb (snd m) (snd (fst e))) eqn:E; [|exact H2].
+    apply (le_trans _ (snd m)); [exact H2 | apply lt_le; exact E].
+Qed.
+
+(* Theorem 4b: Ruge-Stuben direct interpolation, row of an F variable.
+   Guards: the row's own cf is not 'C'; 0 <= eps, 0 <= eps_trunc; zero row sum; the diagonal is stored
+   once (sum of the stored diagonal entries = the value the code keeps); the negative strong-C
+   connections are visible (|a_den| > eps) and, with truncation, survive it (|a_den - d_neg| > eps);
+   the positive strong-C part is either negligible (|b_den| < eps) or visible, surviving truncation,
+   with a positive diagonal. *)
+Theorem rs_interp_row_sum_one (eps et : S) (dt : bool) cf cidx i (r : list entry) :
+  cfm_eqb (cfget cf i) CC = false -> lep s0 eps -> lep s0 et ->
+  let Amin := fst (rs_minmax cf r) * et in
+  let Amax := snd (rs_minmax cf r) * et in
+  fsum (fun _ => true) r = s0 ->
+  fsum (pDI i) r = lastd i r s0 ->
+  sltb eps (sabs (fsum (pAD cf i) r)) = true ->
+  (dt = true -> sltb eps (sabs (fsum (pAD cf i) r - fsum (pDN dt cf i Amin) r)) = true) ->
+  (sltb (sabs (fsum (pBD cf i) r)) eps = true \/
+   (sltb eps (sabs (fsum (pBD cf i) r)) = true /\
+    (dt = true -> sltb eps (sabs (fsum (pBD cf i) r - fsum (pDP dt cf i Amax) r)) = true) /\
+    sltb s0 (lastd i r s0) = true)) ->
+  row_sum (rs_interp_row eps et dt cf cidx i r) = s1.
+Proof.
+  intros hcf heps het Amin Amax hz hd h1 h2 h3. unfold rs_interp_row. fold Amin Amax.
+  destruct (minmax_bounds cf r (s0, s0) (le_refl s0) (le_refl s0)) as [Hmin Hmax].
+  fold (rs_minmax cf r) in Hmin, Hmax.
+  apply row_sum_one_core; auto.
+  - apply mul_nonpos_nonneg; assumption.
+  - apply mul_nonneg_nonneg; assumption.
+Qed.
+
+End RSRowSum.
+
+(* the row of P built by rs_interp for a variable that is not 'C' *)
+Lemma rs_interp_row_nth {S : Scalar} (eps et : S) dt (A : crs S) Sv cf P R i :
+  rs_interp eps et dt A Sv cf = TrOk P R -> i < nrows A -> cfm_eqb (cfget cf i) CC = false ->
+  nth i (rows P) [] = rs_interp_row eps et dt cf (fst (rs_cidx cf)) i (zip_row (nth i (rows A) []) (nth i Sv [])).
+Proof.
+  unfold rs_interp. destruct (Nat.eqb (snd (rs_cidx cf)) 0); [discriminate|].
+  intros H Hi Hc. injection H as <- _. cbn [rows].
+  set (F := fun ir : nat * row S => if cfm_eqb (cfget cf (fst ir)) CC then [(ng (fst (rs_cidx cf)) (fst ir), s1)]
+            else rs_interp_row eps et dt cf (fst (rs_cidx cf)) (fst ir) (zip_row (snd ir) (nth (fst ir) Sv []))).
+  change (nth i (map F (indexed (rows A))) [] = rs_interp_row eps et dt cf (fst (rs_cidx cf)) i (zip_row (nth i (rows A) []) (nth i Sv []))).
+  rewrite (nth_indep _ [] (F (0%nat, []))) by (rewrite map_length, indexed_length; exact Hi).
+  rewrite (map_nth F), nth_indexed by exact Hi. unfold F. cbn [fst snd]. rewrite Hc. reflexivity.
+Qed.
+
+(* closed at the rationals *)
+From Coq Require Import QArith Qcanon.
+From Amgcl Require Import MatOps2Proofs.
+Lemma QcS_abs_def : forall x : QcS, sabs x = if sltb x s0 then - x else x.
+Proof.
+  intro x. unfold sabs, sltb, sopp, s0; simpl. unfold qc_abs, qc_ltb. simpl. rewrite Z.mul_1_r. reflexivity.
+Qed.
